@@ -1,7 +1,11 @@
 #!/bin/sh
 # Runs /repo's own suite (guard off) and prints pass/fail totals; the two baseline
 # always-fail tests (get_or_create_file_test, test_no_permission_file_error) are expected.
+# Exit 0 only for exactly that outcome.
 cd /repo && CARGO_NET_OFFLINE=true cargo test --workspace --no-fail-fast --offline 2>&1 | awk '
 /^test result/ {p+=$4; f+=$6}
 /^test .* FAILED/ {print}
-END {print "passed=" p " failed=" f}'
+END {print "passed=" p " failed=" f; exit !(p == 282 && f == 2)}'
+rc=$?
+rm -f /repo/test_data/get_or_create_file_test
+exit $rc
